@@ -27,16 +27,24 @@ func (r *bstRunner) Do(op []string) string {
 		return errs(r.t.Delete(atoi(op[1])))
 	case "size":
 		return itoa(r.t.Size())
-	case "traverse":
+	case "traverse", "traversenested":
+		// traversenested: the callback starts a second, complete Traverse while the first one is in progress
+		// (both read-only); each walk must still visit every present key exactly once, in order
 		var items []string
-		n := 0
+		n, inner := 0, 0
 		r.t.Traverse(func(it bstree.Item[int, int]) {
 			n++
 			if n > 100000 {
 				panic(hangSignal{})
 			}
+			if op[0] == "traversenested" && n == 2 {
+				r.t.Traverse(func(bstree.Item[int, int]) { inner++ })
+			}
 			items = append(items, "["+itoa(it.Key)+","+itoa(it.Val)+"]")
 		})
+		if op[0] == "traversenested" {
+			return plist(items) + " " + itoa(inner)
+		}
 		return plist(items)
 	}
 	panic("harness: bad op " + op[0])
@@ -257,7 +265,7 @@ func genC04(g *Gen) {
 				ops = append(ops, "traverse")
 			}
 		}
-		ops = append(ops, "size", "traverse")
+		ops = append(ops, "size", "traverse", "traversenested")
 		g.Emit("bst", []string{comp}, ops)
 	}
 }
@@ -394,6 +402,34 @@ func genC09(g *Gen) {
 		kind := []string{}
 		g.Emit("trie", kind, ops)
 	})
+	// long keys (and keys around thresholds a change introduced into the source): nested long prefixes
+	lens := []int{31, 32, 33, 63, 64, 65, 127, 128, 129, 255, 256, 257}
+	if g.Thorough() {
+		lens = append(lens, 511, 512, 513, 1023, 1024, 1025, 4097)
+	}
+	for _, s := range extraSizes() {
+		if s <= 70000 {
+			lens = append(lens, s-1, s, s+1, 2*s+1)
+		}
+	}
+	if g.Mine() {
+		var ops []string
+		var stored []string
+		for i, l := range lens {
+			k := strings.Repeat("ab", l/2+1)[:l]
+			if i%3 == 1 {
+				k = strings.Repeat("b", l)
+			}
+			stored = append(stored, k)
+			ops = append(ops, "put "+hx(k)+" "+itoa(100+i), "size", "get "+hx(k), "contains "+hx(k), "get "+hx(k[:l-1]),
+				"longestprefix "+hx(k+"zz"))
+		}
+		ops = append(ops, "keys", "startswith "+hx("ab"), "startswith "+hx("b"), "keys", "size")
+		for i, k := range stored {
+			ops = append(ops, "put "+hx(k)+" "+itoa(500+i), "size", "get "+hx(k))
+		}
+		g.Emit("trie", []string{}, ops)
+	}
 	// seeded random key sets: shared prefixes, nested keys, non-ASCII bytes
 	n := 300
 	if g.Thorough() {
